@@ -127,6 +127,8 @@ def check_cell(ctx, case, by_construction=False):
         obj.write_line("old content")
     obj.set_verbosity(verbosity)
     obj.set_quiet(quiet)
+    if case.get("indent"):
+        obj.indent(case["indent"])  # the gate does not depend on the indentation in force
     before = {k: (s.fetch() if s is not None else None) for k, s in streams.items()}
     try:
         if method == "clear":
@@ -304,6 +306,9 @@ def cells():
                         for flags in fl:
                             yield {"kind": kind, "method": method, "formatter": fmt_kind, "verbosity": verbosity,
                                    "flags": flags, "quiet": quiet}
+                            if method not in ("clear", "overwrite"):
+                                yield {"kind": kind, "method": method, "formatter": fmt_kind, "verbosity": verbosity,
+                                       "flags": flags, "quiet": quiet, "indent": 3}
                             if method != "clear":
                                 for text in ("empty", "newline", "blank"):
                                     yield {"kind": kind, "method": method, "formatter": fmt_kind, "verbosity": verbosity,
@@ -327,7 +332,7 @@ def run(ctx):
     table = {}
     for c in cells():
         check_cell(ctx, c, by_construction=True)
-    ctx.exhaustive("gate", True, "object kinds x reflected methods x formatter x verbosity x flags x quiet x text {unique marker, empty, newline only, blanks}")
+    ctx.exhaustive("gate", True, "object kinds x reflected methods x formatter x verbosity x flags x quiet x text {unique marker, empty, newline only, blanks} x indentation 0 / 3")
     options = [(si, fl, q, v) for si in (0, 1) for fl in (None, 1, 4) for q in (0, 1) for v in (0, 4)]
     ctx.parallel("shard_section_history", [(k, o) for k in ("plain", "ansi") for o in options])
     ctx.parallel("shard_setter_history", [(k, f, st_) for k in ("output", "output-section", "buffered-io", "output-from-null") for f in ("plain", "ansi")
